@@ -61,7 +61,8 @@ MUTANTS = [
     ("m01d", "C01", "rpc.go", "\tif stop := reg.StopKey(); len(stop) != 0 && len(stop) <= len(probe) &&", "\tif stop := reg.StopKey(); false && len(stop) != 0 && len(stop) <= len(probe) &&", "probe key not brought back into a tiny region"),
     ("m11d", "C11", "region/info.go", "\tif !bytes.Equal(cell.Row[:first], table) ||\n\t\t!bytes.Equal(cell.Row[first+1:last], regInfo.StartKey) {", "\tif false {", "region name no longer compared with the region info"),
     ("m11e", "C11", "region/client.go", "\tif size > math.MaxInt32 {", "\tif false && size > math.MaxInt32 {", "frame length of 2^31 and more accepted"),
-    ("m11f", "C11", "rpc.go", "\tif stop := reg.StopKey(); len(stop) != 0 && len(stop) <= len(probe) &&", "\tif stop := reg.StopKey(); len(stop) != 0 &&", "probe sliced to the length of any stop key"),
+    # (m11f - probeKey slicing to the length of any stop key - was caught until 49cf911; since then a region info whose stop key
+    # sorts before its start key never reaches probeKey, the guard is unreachable from hbase:meta and the mutant equivalent)
     ("m11g", "C11", "region/info.go", "\tif len(regInfo.EndKey) != 0 && bytes.Compare(regInfo.StartKey, regInfo.EndKey) >= 0 {", "\tif false {", "region infos that end before they start accepted"),
     ("m13a", "C13", "rpc.go", "\t\t\tcase <-ctx.Done():\n\t\t\t\treturn nil, ctx.Err()\n\t\t\tcase <-c.done:\n\t\t\t\treturn nil, ErrClientClosed\n\t\t\tcase <-ch:\n\t\t\t}\n\t\t}\n\n\t\tclient := reg.Client()",
      "\t\t\tcase <-c.done:\n\t\t\t\treturn nil, ErrClientClosed\n\t\t\tcase <-ch:\n\t\t\t}\n\t\t}\n\n\t\tclient := reg.Client()", "first availability wait ignores the context"),
